@@ -8,9 +8,15 @@ MANIFEST = dict(
          "theorem whole_packet_c03: every accepted packet of any depth made of the 53 modelled classes (explicit exclusions: PPI/PKTAP, "
          "datagrams too long for their 16-bit length field, ICMP with extensions / non-ghost-free quotes = known findings, top-level IP with "
          "source 0.0.0.0) serializes, re-parses with the same entry point to the same classes with the same views, and through IP/IPv6 to the "
-         "same payload byte for byte; second serialization a fixed point for link-layer stacks (l2_whole_packet_c03). Correspondence of "
-         "parse, serialize, re-parse and second serialization for every class; view equality is checked by the Lean oracle on the "
-         "implementation's own field dumps.",
+         "same payload byte for byte; the second clause — serializing the re-parsed packet reproduces the first serialization byte for "
+         "byte whenever the innermost payload is non-empty — is whole_packet_c03_fixpoint, over the same seven families and hypotheses "
+         "(Wire/Chain/Fix*.lean: per-class lemmas 'the re-parsed object writes the same bytes in a context the writers cannot tell "
+         "apart', induction over the stack inner chain first; derived lengths / tags / checksums / option padding / RadioTap FCS are "
+         "recomputed from the same inputs, minimum-frame padding that reached the payload is payload the second time, padding cut off "
+         "by an IP / IPv6 / PPPoE / EAPOL length is re-created); whole_packet_c03_full states both clauses together; for API-built "
+         "stacks built_packet_c03_fixpoint with the one explicit exclusion NoAppAll (Dot1Q append_padding_, KF-C04-L2-4, refuted on a "
+         "witness). Correspondence of parse, serialize, re-parse and second serialization for every class; view equality and the "
+         "fixed point (clause reserialize-fixpoint) are checked by the Lean oracle on the implementation's own output.",
     note="The theorems are about hand-written, code-shaped Lean models of 53 entry classes in seven families (link layers, IPv4 + options / AH / ESP, "
          "IPv6 + extension headers, TCP + options / UDP, ICMP / ICMPv6 + extensions, DHCP / DHCPv6 / BootP / RTP / VXLAN / ARP / STP, 802.11 / "
          "RadioTap / EAPOL; list in the evidence: modelled_classes); the tie to the C++ is differential correspondence of every line under "
